@@ -15,6 +15,7 @@ import (
 	"strings"
 	"sync"
 	"sync/atomic"
+	"syscall"
 	"testing"
 	"time"
 
@@ -160,7 +161,9 @@ func c40GenSpec(r *kit.Rand, i int) *c40Spec {
 	s.WorkerClose = r.Chance(0.2)
 	s.NRTP = r.Range(2, 4)
 	s.NSample = r.Range(2, 4)
-	s.PreAdd = r.Intn(3)
+	if r.Chance(0.8) { // otherwise the first offer starts empty unless a worker is faster
+		s.PreAdd = r.Range(1, 2)
+	}
 	for k := 0; k < s.Rounds; k++ {
 		s.RoundGapUs = append(s.RoundGapUs, r.Intn(8000))
 	}
@@ -527,10 +530,15 @@ func (p *c40Prog) do(op c40Op, seq *uint16) { //nolint:cyclop,gocognit
 func (p *c40Prog) worker(g int) {
 	list := p.spec.Lists[g]
 	var seq uint16
+	closed := false
 	for pass := 0; pass < 400; pass++ {
 		for _, op := range list {
-			if op.K == c40Close && pass > 0 {
-				continue
+			if op.K == c40Close {
+				// Close from a second goroutine: once, as soon as signaling reached the seeded step (or is over)
+				if closed || (int(p.phase.Load()) < p.spec.CloseAt && p.sigActive.Load()) {
+					continue
+				}
+				closed = true
 			}
 			p.do(op, &seq)
 			p.progress[g].Add(1)
@@ -1356,6 +1364,8 @@ func TestVerifC40(t *testing.T) { //nolint:cyclop,gocognit,maintidx
 	if err != nil {
 		t.Fatalf("child output: %v", err)
 	}
+	cmd.Env = env
+	cmd.SysProcAttr = &syscall.SysProcAttr{Pdeathsig: syscall.SIGKILL} // never outlive the monitor process
 	cmd.Stdout, cmd.Stderr = outFile, outFile
 	if err = cmd.Start(); err != nil {
 		t.Fatalf("child start: %v", err)
